@@ -11,9 +11,11 @@ func init() {
 				PkgName: "main",
 				Files:   []string{"optimize.go"},
 				Entries: []Entry{
-					{Fn: "Harness_C19_optimize_n1", Tiers: "both", Reach: []string{"end"}, Bounds: "1 field, size = k*align, 0<=k<4096, align in {1,2,4,8}"},
-					{Fn: "Harness_C19_optimize_n2", Tiers: "both", Reach: []string{"end"}, Bounds: "2 fields, size = k*align, 0<=k<4096, align in {1,2,4,8}"},
+					{Fn: "Harness_C19_optimize_n1", Tiers: "both", Reach: []string{"end"}, Bounds: "1 field, size = k*align, 0<=k<2^24, align in {1,2,4,8}"},
+					{Fn: "Harness_C19_optimize_n2", Tiers: "both", Reach: []string{"end"}, Bounds: "2 fields, size = k*align, 0<=k<2^24, align in {1,2,4,8}"},
 					{Fn: "Harness_C19_optimize_n3", Tiers: "both", Reach: []string{"end"}, Bounds: "3 fields, same ranges"},
+					{Fn: "Harness_C19_combine_n2", Tiers: "both", Reach: []string{"end"}, Bounds: "default mode (combine, then optimize): 2 top-level fields without nesting, same ranges"},
+					{Fn: "Harness_C19_combine_n3", Tiers: "both", Reach: []string{"end"}, Bounds: "default mode: 3 top-level fields without nesting"},
 					{Fn: "Harness_C19_optimize_n4", Tiers: "thorough", Reach: []string{"end"}, Bounds: "4 fields, same ranges"},
 				},
 			}, {
@@ -36,6 +38,7 @@ func init() {
 				Entries: []Entry{
 					{Fn: "Harness_C19_layout_flat3", Tiers: "both", Reach: []string{"end"}, Bounds: "structs of 1-3 fields over 6 basic kinds and arrays of length 0-2 (incl. trailing zero-size fields)"},
 					{Fn: "Harness_C19_layout_nested2q", Tiers: "both", Reach: []string{"end"}, Bounds: "int64 or nested struct (0-2 fields), then an arbitrary field (basic, array, nested struct, struct{}), optionally a third basic field"},
+					{Fn: "Harness_C19_layout_deep2q", Tiers: "both", Reach: []string{"end"}, Bounds: "nesting depth 2: {small; struct{small; struct{small; small}; [small]}; [small]} with small in {int8, int64, [0]int32, struct{}}, inner struct first or second"},
 					{Fn: "Harness_C19_layout_nested2", Tiers: "thorough", Reach: []string{"end"}, Bounds: "structs of 1-2 fields; fields may be nested structs of 0-2 fields or struct{}"},
 				},
 			}},
